@@ -100,6 +100,10 @@ fn cmd_run(args: &[String], scratch: &str) -> i32 {
     let jobs = parse_u64(&arg(args, "--jobs").unwrap_or("16".into())).max(1);
     let out_path = arg(args, "--out");
     let max_s = parse_u64(&arg(args, "--max-seconds").unwrap_or("100000".into()));
+    // the hang watchdog is a harness safeguard, not an oracle: generous in the thorough tier, whose sources
+    // include the multi-megabyte corpus files (seconds per load) and which may share the machine
+    let wd = arg(args, "--watchdog").map(|v| parse_u64(&v)).unwrap_or(if arg(args, "--tier").as_deref() == Some("thorough") { 1800 } else { 300 });
+    engine::WATCHDOG_SECS.store(wd, std::sync::atomic::Ordering::Relaxed);
     let nsamples = parse_u64(&arg(args, "--samples").unwrap_or("3".into())) as usize;
     if let Err(e) = shim::self_test(scratch) {
         println!("HARNESS-ERROR seam self-test: {}", e);
